@@ -81,7 +81,8 @@ Lemma inb_insert n : forall s i a, n < length s -> a < nth n s 0 ->
   inb (remove_nth n s) i = true -> inb s (insert_at n a i) = true.
 Proof.
   induction n as [|n IH]; intros [|d s] i a Hn Ha H; cbn in Hn; try lia.
-  - cbn in *. unfold remove_nth in H. cbn in H. rewrite H. apply Nat.ltb_lt in Ha. now rewrite Ha.
+  - change (insert_at 0 a i) with (a :: i). change (remove_nth 0 (d :: s)) with s in H. cbn [nth] in Ha.
+    cbn [inb]. apply Nat.ltb_lt in Ha. rewrite Ha, H. reflexivity.
   - change (remove_nth (S n) (d :: s)) with (d :: remove_nth n s) in H.
     destruct i as [|x i]; [discriminate|]. cbn [inb] in H. apply andb_true_iff in H as [Hx Hi].
     change (insert_at (S n) a (x :: i)) with (x :: insert_at n a i). cbn [inb]. rewrite Hx. cbn.
@@ -155,7 +156,7 @@ Proof.
     now rewrite (map_nth (fun rb => f (nth x An []) rb)). }
   rewrite Hrow by auto.
   (* both sides: sum over s of ... ; reorder the left one *)
-  rewrite (sum_n_ext _ _ _ _ _ (fun s => SN R (fun r => nth r (nth a An []) v0 * kgram_M v0 vmul K n r s * nth s (nth b An []) v0)))
+  rewrite (sum_n_ext _ _ _ _ _ (fun s => SN R (fun r => nth r (nth a An []) v0 * kgram_M v0 vadd vmul K n r s * nth s (nth b An []) v0)))
     by (intros s _; now rewrite sum_n_scale_r).
   unfold sum_n. rewrite (sum_over_swap V v0 v1 vadd vmul vsub vopp Vring).
   apply sum_over_ext. intros r _.
@@ -165,7 +166,7 @@ Proof.
   (* the sum over the remaining subscripts *)
   rewrite (sum_over_ext _ _ _ _ _ (pim (map (fun A x => mg A x r * mg A x s) rest))).
   2:{ intros i _. rewrite !kprod_pim. apply (pim_mul (fun A x => mg A x r) (fun A x => mg A x s)). }
-  unfold kshape. rewrite <- remove_nth_map. fold rest.
+  unfold kshape. rewrite remove_nth_map. fold rest.
   rewrite sum_pim by (now rewrite !map_length).
   unfold nrows. rewrite (pis_prodv (fun A x => mg A x r * mg A x s) (fun A => length A)).
   unfold kgram_M. fold rest. rewrite fold_left_mul.
